@@ -444,6 +444,7 @@ class MViews(Monitor):
     def __init__(self):
         super().__init__()
         self.last = {}
+        self.first = {}
         self.count = {}
         self.flagged = set()
 
@@ -484,6 +485,20 @@ class MViews(Monitor):
             if f not in d: shape.append(f + " missing")
         if shape:
             self._flag(w, arn, "notification_shape", "notification for %s: %s" % (st, ", ".join(shape)), what=",".join(shape))
+        # every notification of one execution describes the same execution: identity, input and start instant never change
+        first = self.first.setdefault(arn, d)
+        for f in ("stateMachineArn", "name", "input", "startDate"):
+            if first.get(f) != d.get(f):
+                self._flag(w, arn, "notifications_disagree", "%s: %r in the %s notification, %r in the %s notification" % (f, first.get(f), first.get("status"), d.get(f), st), what=f)
+        # ... and the input is the one the execution was started with
+        for s_ in list(w.sc.get("starts", [])) + [c for c in w.sc.get("script", []) if c.get("op") == "start"]:
+            if arn and arn.endswith(":%s:%s" % (s_.get("machine"), s_.get("name"))) and "input" in s_:
+                try:
+                    got = json.loads(d.get("input"))
+                except Exception:
+                    got = ("unparsable", d.get("input"))
+                if got != s_["input"] or type(got) != type(s_["input"]):
+                    self._flag(w, arn, "notification_input", "the %s notification carries input %r, the execution was started with %r" % (st, d.get("input"), s_["input"]), what="input")
 
     def after_step(self, w, label):
         recs = w.executions()
@@ -515,6 +530,9 @@ class MViews(Monitor):
                     rv = (rec.get("status"), rec.get("output") if rec.get("status") == "SUCCEEDED" else None, rec.get("error") if rec.get("status") == "FAILED" else None)
                     if hv != rv:
                         self._flag(w, arn, "history_vs_record", "last history event %r, record %r" % (hv, rv), what=str(last.get("type")))
+                    firstev = dict(list(h)[0])
+                    if firstev.get("type") == "ExecutionStarted" and firstev.get("executionStartedEventDetails", {}).get("input") != rec.get("input"):
+                        self._flag(w, arn, "history_vs_record", "ExecutionStarted input %r, record input %r" % (firstev.get("executionStartedEventDetails", {}).get("input"), rec.get("input")), what="ExecutionStarted")
             # the stored record must still hold epoch seconds once the broadcast is over
             for f in ("startDate", "stopDate"):
                 rv, nv = rec.get(f), d.get(f)
@@ -920,6 +938,24 @@ class MTime(Monitor):
                     if ent and ent[1].props.message_id == op.get("message_id"):
                         obj = ent[1].meta()[1]
                         self._on_event(w, obj, rfc3339, JP)
+        elif op["op"] == "publish" and op.get("exchange") == "" and str(op.get("routing_key")).startswith("asl_workflow_events") and op.get("connection") != "env" and w.step_no > 0:
+            # a state is entered when the transition to it is published: its EnteredTime (from which Seconds and TimeoutSeconds
+            # are measured) must be that instant, or that instant plus the retry delay for a republished retry
+            try:
+                st = json.loads(op["body"].decode("utf8"))["context"]["State"]
+                reentry = bool(st.get("Branch")) and isinstance(st["Branch"][-1], dict) and "Range" in st["Branch"][-1] and "Index" not in st["Branch"][-1] \
+                    and str((op.get("site") or ["", ""])[1]).endswith("asl_state_collect_results")
+                # (a Map state re-entered for its next MaxConcurrency batch is still the same entry: it keeps its EnteredTime)
+                if st.get("Name") and not reentry:
+                    ent = float(rfc3339.parse(st["EnteredTime"]))
+                    now = op.get("now")
+                    ok = abs(ent - now) <= self.TOL or ("RetryTimeout" in st and abs(ent - now - st["RetryTimeout"] / 1000.0) <= self.TOL)
+                    if not ok and ("entered", st.get("Name")) not in self.flagged:
+                        self.flagged.add(("entered", st.get("Name")))
+                        self.flag(w, "entered_time_wrong", "the event entering state %r was published at +%.6f but carries EnteredTime +%.6f" % (
+                            st.get("Name"), now - w.clock.__class__().now, ent - w.clock.__class__().now), op.get("arn"), op.get("site"), state=st.get("Name"))
+            except (KeyError, ValueError, TypeError, AttributeError):
+                pass
         elif op["op"] == "timer_fired":
             kind = op.get("kind", "")
             self.last_timer_delay = op.get("delay")
